@@ -26,6 +26,7 @@ type shape struct {
 	CoqFm  string // Coq `form`
 	Decls  []string
 	Direct bool
+	MaxK   int // > 0: the form terminates after MaxK hook calls; only k <= MaxK is enumerated
 }
 
 func callShape(name string, entry int, arg int, funcs ...[]L.Stmt) shape {
@@ -44,6 +45,7 @@ func shapes(rng *vh.Rng, nRandom int) []shape {
 	ss := []shape{
 		directShape("for{hook}", L.B(L.Forever(H))),
 		directShape("for{hook;hook}", L.B(L.Forever(H, H))),
+		directShape("for{14 hooks}", L.B(L.Forever(H, H, H, H, H, H, H, H, H, H, H, H, H, H))),
 		directShape("for{n++;hook}", L.B(L.Forever(I, H))),
 		directShape("for{x++;hook;x++;x++}", L.B(L.Forever(G, H, G, G))),
 		directShape("for{n++;if/else}", L.B(L.Forever(I, L.IfMod(2, 0, L.B(H), L.B(H, H))))),
@@ -71,6 +73,19 @@ func shapes(rng *vh.Rng, nRandom int) []shape {
 		callShape("recursion with work", 0, 0, L.B(H, G, L.IfMod(3, 0, L.B(H), nil), L.Call(0, L.Inc_()))),
 		callShape("call chain in recursion", 0, 0, L.B(H, L.Call(1, L.Const(2)), L.Call(0, L.Inc_())), L.B(G, H, L.IfPos(L.Call(1, L.Dec())), H)),
 		callShape("recursion with defers", 0, 0, L.B(L.IfMod(3, 0, L.B(L.DeferHook()), nil), H, L.Call(0, L.Inc_()))),
+	}
+	// terminating forms whose LAST hook call happens in a deferred call: the flag is then only seen by restore()
+	for _, t := range []shape{
+		callShape("terminating: deferred compiled hook is the last call", 0, 0, L.B(H, L.DeferHook(), H)),
+		callShape("terminating: deferred closure makes the last call", 0, 0, L.B(L.DeferFunc(L.Const(0), G, H), H, G)),
+		callShape("terminating: callee's deferred hook, caller ends", 0, 0, L.B(H, L.Call(1, L.Const(0))), L.B(L.DeferHook(), H)),
+		directShape("terminating top-level block, deferred hook last", L.B(L.DeferHook(), H, G)),
+	} {
+		t.MaxK = 2
+		if strings.Contains(t.Name, "compiled hook is the last") || strings.Contains(t.Name, "callee's") {
+			t.MaxK = 3
+		}
+		ss = append(ss, t)
 	}
 	// random loop bodies
 	for r := 0; r < nRandom; r++ {
@@ -164,10 +179,10 @@ func main() {
 	if a.N > 0 {
 		K = a.N
 	}
-	rep := vh.NewReport(a, fmt.Sprintf("part 1: 27 fixed loop shapes (plain loops, if/else bodies, nested calls, loops inside called functions, "+
+	rep := vh.NewReport(a, fmt.Sprintf("part 1: 28 fixed loop shapes + 4 terminating forms whose last hook call is deferred (plain loops, if/else bodies, nested calls, loops inside called functions, "+
 		"deferred closures/functions containing the loop, defer statements before and inside the loop, top-level blocks, recursion) + %d PRNG loop bodies; "+
-		"for each shape and EVERY k in 1..%d the compiled hook calls Interp.Interrupt at its k-th call (one interpreter serves 16 consecutive k, then a fresh one); observed = number of later hook calls, panic class; "+
-		"part 2: %d asynchronous deliveries from another goroutine after a PRNG delay (0..3ms) into 6 call-free tight loops (time bound 5s); "+
+		"for each shape and EVERY k in 1..%d (thorough: 1..2000 for the 12 basic shapes, 1..500 for the other fixed, 1..300 for PRNG shapes) the compiled hook calls Interp.Interrupt at its k-th call (one interpreter serves 16 consecutive k, then a fresh one); observed = number of later hook calls, panic class; "+
+		"part 2: %d asynchronous deliveries from another goroutine a PRNG delay (0..3ms) after the evaluation signalled that it started running, into 6 call-free tight loops (time bound 5s); "+
 		"after every case the Run record is compared with an idle interpreter's; after k<=16, k multiple of 14 or 15, k=71, k=K and after every async case a 22-evaluation battery is compared with an uninterrupted interpreter holding the same definitions; "+
 		"a case is non-trivial when the interrupt was delivered while interpreted code was running (always); distinct by SHA-256 of (shape source, k)", nRandom, K, nAsync))
 	wd := vh.NewWatchdog(rep, 20*time.Second)
@@ -175,12 +190,23 @@ func main() {
 
 	idx := 0
 	maxLater := 0
-	for _, sh := range shapes(rng, nRandom) {
+	for si, sh := range shapes(rng, nRandom) {
 		wantBattery := mkProbe(sh).RunBattery()
 		coqProg := sh.Prog.CoqProg()
 		src := strings.Join(sh.Decls, " ; ") + " ;; " + sh.Form
 		var pr *L.Probe
-		for k := 1; k <= K; k++ {
+		Ksh := K
+		if sh.MaxK > 0 {
+			Ksh = sh.MaxK
+		}
+		// thorough: the first 12 (basic) shapes get every k <= 2000, the other fixed shapes every k <= 500,
+		// the PRNG shapes every k <= 300 (model evaluation cost grows with k)
+		if strings.HasPrefix(sh.Name, "random#") && Ksh > 300 {
+			Ksh = 300
+		} else if si >= 12 && Ksh > 500 {
+			Ksh = 500
+		}
+		for k := 1; k <= Ksh; k++ {
 			in := caseIn{Shape: sh.Name, Decls: sh.Decls, Form: sh.Form, K: k}
 			wd.Beat(in)
 			key := fmt.Sprintf("%s|k=%d", src, k)
@@ -212,7 +238,7 @@ func main() {
 			if bad := snapProblems(pr.Snapshot()); len(bad) > 0 {
 				fail("Run record not idle after the interrupted evaluation", bad, nil)
 			}
-			if k <= 16 || k%14 == 0 || k%15 == 0 || k == 71 || k == K {
+			if k <= 16 || k%14 == 0 || k%15 == 0 || k == 71 || k == Ksh {
 				got := pr.RunBattery()
 				for i := range got {
 					if got[i] != wantBattery[i] {
@@ -238,21 +264,35 @@ func main() {
 	rep.Extra["max_later_nondeferred"] = maxLater
 
 	// ---- part 2: asynchronous delivery into tight loops without calls
+	// every form calls the compiled function started() once, BEFORE its loop: the interrupt is delivered only after
+	// the evaluation has begun to run (an interrupt that arrives while the source is still being compiled is
+	// discarded by prepareEnv on purpose - "in case we received a SigInterrupt in the meantime" - and is not the
+	// subject of the property)
 	tight := []struct{ decl, form string }{
-		{"", "for { }"},
-		{"", "for { n++ }"},
-		{"", "for { x++; if x%3 == 0 { n++ } else { n-- } }"},
-		{"func t0(n int) { for { n++ } }", "t0(0)"},
-		{"func t1(n int) { for { for j := 0; j < 10; j++ { n += j } } }", "t1(0)"},
-		{"func t2(n int) { defer func() { for { x++ } }() }", "t2(0)"},
+		{"", "{ started(); for { } }"},
+		{"", "{ started(); for { n++ } }"},
+		{"", "{ started(); for { x++; if x%3 == 0 { n++ } else { n-- } } }"},
+		{"func t0(n int) { started(); for { n++ } }", "t0(0)"},
+		{"func t1(n int) { started(); for { for j := 0; j < 10; j++ { n += j } } }", "t1(0)"},
+		{"func t2(n int) { defer func() { started(); for { x++ } }() }", "t2(0)"},
+	}
+	startCh := make(chan struct{}, 1)
+	newTight := func(decl string) *L.Probe {
+		pr := L.NewProbe()
+		pr.Ir.DeclFunc("started", func() {
+			select {
+			case startCh <- struct{}{}:
+			default:
+			}
+		})
+		if decl != "" {
+			pr.Ir.Eval(decl)
+		}
+		return pr
 	}
 	var wantB [][]string
 	for _, t := range tight {
-		pr := L.NewProbe()
-		if t.decl != "" {
-			pr.Ir.Eval(t.decl)
-		}
-		wantB = append(wantB, pr.RunBattery())
+		wantB = append(wantB, newTight(t.decl).RunBattery())
 	}
 	maxStop := time.Duration(0)
 	for c := 0; c < nAsync; c++ {
@@ -262,12 +302,14 @@ func main() {
 		in := caseIn{Shape: "async", Decls: []string{t.decl}, Form: t.form, K: int(delay / time.Microsecond), Async: true}
 		wd.Beat(in)
 		key := fmt.Sprintf("async|%s|%s", t.decl, t.form)
-		pr := L.NewProbe()
-		if t.decl != "" {
-			pr.Ir.Eval(t.decl)
+		pr := newTight(t.decl)
+		select { // drain
+		case <-startCh:
+		default:
 		}
 		done := make(chan time.Time, 1)
 		go func() {
+			<-startCh
 			time.Sleep(delay)
 			done <- time.Now()
 			pr.Ir.Interrupt(nil)
